@@ -396,8 +396,31 @@ class EGraph:
         return [n for n, sub in self.callee_inst.items() if re.search(rx, sub.key)]
 
     # ---- provenance -----------------------------------------------------------------
+    def _promoted(self, inst, idx):
+        """instance for promoted constant #idx of inst's body"""
+        key = "%s::promoted[%d]" % (inst.key, idx)
+        cache = self.__dict__.setdefault("_prom_insts", {})
+        if (inst.id, idx) in cache:
+            return cache[(inst.id, idx)]
+        proms = inst.body.get("promoted") or []
+        if idx >= len(proms):
+            return None
+        if key not in self.prog.bodies:
+            pb = dict(proms[idx])
+            pb.update({"key": key, "kind": "Promoted", "argc": 0, "file": inst.body["file"], "line": inst.body["line"]})
+            self.prog.bodies[key] = pb
+        sub = Inst(len(self.insts), key, self.prog.bodies[key], inst, None, inst.depth + 1, "promoted")
+        self.insts.append(sub)
+        cache[(inst.id, idx)] = sub
+        return sub
+
     def prov_operand(self, inst, o):
         if o["k"] == "const":
+            m = re.search(r"promoted\[(\d+)\]", o.get("v", ""))
+            if m:
+                sub = self._promoted(inst, int(m.group(1)))
+                if sub is not None:
+                    return self.prov_local(sub, 0)
             if "fn" in o:
                 return ("fn", o["fn"].get("rpath") or o["fn"]["path"])
             if "int" in o:
@@ -430,10 +453,16 @@ class EGraph:
             inner, var = base[1], base[2]
             if inner[0] == "branch":
                 if var == "Continue":
+                    r = self._ret_payload(inner[1], None)
+                    if r is not None:
+                        return r
                     return ("okval", inner[1])
                 if var == "Break":
                     return ("residual", inner[1])
             if var in ("Ok", "Some") and idx == 0:
+                r = self._ret_payload(inner, var)
+                if r is not None:
+                    return r
                 return ("okval", inner)
             if var == "Err" and idx == 0:
                 return ("errval", inner)
@@ -451,6 +480,26 @@ class EGraph:
                     return self.prov_operand(pinst, rv["fields"][idx])
             return ("upvar", base[1], name)
         return ("field", base, name)
+
+    def _ret_payload(self, e, var):
+        """for e = ('ret', key, args, call node): if the inlined callee builds its Ok/Some result in exactly one
+        aggregate, the provenance of that payload"""
+        if not (isinstance(e, tuple) and e and e[0] == "ret" and len(e) > 3):
+            return None
+        sub = self.callee_inst.get(e[3])
+        if sub is None:
+            return None
+        found = []
+        for d in self.prog.defs(sub.key).get(0, []):
+            if d[0] != "s":
+                continue
+            st = sub.body["blocks"][d[1]]["stmts"][d[2]]
+            if st["k"] == "assign" and not st["p"]["proj"] and st["rv"]["k"] == "agg" and st["rv"].get("ak") == "adt" \
+                    and st["rv"].get("variant") in (("Ok", "Some") if var is None else (var,)) and st["rv"]["fields"]:
+                found.append(st["rv"]["fields"][0])
+        if len(found) == 1:
+            return self.prov_operand(sub, found[0])
+        return None
 
     def _closure_creation(self, ci):
         """find the aggregate creating closure ci.key in its ancestor instances."""
@@ -684,6 +733,15 @@ class Product:
         for s in dead:
             del tags[s]
 
+    @staticmethod
+    def _subtags(tags, slot):
+        """tags of strict sub-slots of `slot`, as (relative path, tag)"""
+        if slot is None:
+            return []
+        n = len(slot[2])
+        return [(s[2][n:], v) for s, v in tags.items()
+                if s[0] == slot[0] and s[1] == slot[1] and len(s[2]) > n and s[2][:n] == slot[2]]
+
     def _tag_of_operand(self, inst, o, tags):
         if o["k"] == "const":
             if o.get("ty") == "bool" and "int" in o:
@@ -724,10 +782,30 @@ class Product:
             tag = ("?", ("stmt", n, si))
         elif k == "discr":
             tag = None
+        sub = []
         if slot is not None:
+            if k == "use" and rv["a"]["k"] in ("copy", "move"):
+                src = self.g.slot_of(inst, rv["a"]["p"])
+                if src is not None and src != slot:
+                    sub = self._subtags(tags, src)
+            elif k == "agg" and rv["ak"] in ("adt", "tuple"):
+                names = rv.get("fnames") or [str(i) for i in range(len(rv["fields"]))]
+                for i, f in enumerate(rv["fields"]):
+                    ft = self._tag_of_operand(inst, f, tags)
+                    nm = names[i] if i < len(names) else str(i)
+                    if ft is not None:
+                        sub.append(((nm,), ft))
+                    if f["k"] in ("copy", "move"):
+                        fs = self.g.slot_of(inst, f["p"])
+                        if fs is not None:
+                            for rel, v in self._subtags(tags, fs):
+                                sub.append(((nm,) + rel, v))
             self._kill(tags, slot)
             if tag is not None:
                 tags[slot] = tag
+            for rel, v in sub:
+                if len(slot[2]) + len(rel) <= 3:
+                    tags[(slot[0], slot[1], slot[2] + rel)] = v
 
     def _kill_mut_args(self, inst, t, tags):
         # a callee given `&mut place` may change it
@@ -786,10 +864,20 @@ class Product:
                         tag = (v, a0[1]) if v else None
         if tag is None and _is_tagged_ty(dty):
             tag = ("?", ("call", n))
+        sub = []
+        if c and t["args"] and t["args"][0]["k"] in ("copy", "move") and \
+                (re.search(r"ops::Try::branch$", c["path"]) or
+                 re.search(r"(result::Result::<T, E>::(map_err|inspect_err)|ErrorContextExt::context)$", c["path"])):
+            src = self.g.slot_of(inst, t["args"][0]["p"])
+            if src is not None and (tag is None or tag[0] in ("Ok", "Continue", "?")):
+                sub = self._subtags(tags, src)
         if slot is not None:
             self._kill(tags, slot)
             if tag is not None:
                 tags[slot] = tag
+            for rel, v in sub:
+                if len(slot[2]) + len(rel) <= 3:
+                    tags[(slot[0], slot[1], slot[2] + rel)] = v
 
     # ---- exploration ------------------------------------------------------------------
     def _explore(self):
@@ -825,6 +913,7 @@ class Product:
                         ct = g.term(cn)
                         nt = {s: v for s, v in tags.items() if s[0] != inst.id}
                         r = tags.get((inst.id, 0, ()))
+                        rsub = self._subtags(tags, (inst.id, 0, ()))
                         dslot = g.slot_of(pinst, ct["dest"])
                         if dslot is not None:
                             self._kill(nt, dslot)
@@ -832,6 +921,9 @@ class Product:
                                 nt[dslot] = r
                             elif _is_tagged_ty(ct.get("dest_ty", "")):
                                 nt[dslot] = ("?", ("call", cn))
+                            for rel, v in rsub:
+                                if len(dslot[2]) + len(rel) <= 3:
+                                    nt[(dslot[0], dslot[1], dslot[2] + rel)] = v
                         outs.append((m, nt, ()))
                     else:
                         # closure maybe-call return: forget the closure's locals
